@@ -45,9 +45,23 @@ func (e *C6Embedded) EmbM(ctx context.Context) error {
 
 var c6Current *c6Local
 
-type c6Leaf struct{ svc *c6Local }
+type c6Leaf struct {
+	svc *c6Local
+	tag string // which object of the graph this is: the method says so when it runs
+}
 
-func (l *c6Leaf) Foo(ctx context.Context) error { l.svc.hit("Foo"); return nil }
+func (l *c6Leaf) Foo(ctx context.Context) error { l.svc.hit(l.tag + ".Foo"); return nil }
+
+// C6Pub is embedded BY VALUE and exported: its field Pro is promoted (reachable as "Pro" and as "C6Pub.Pro"), and so
+// is its method Foo (reachable as "Foo" and "C6Pub.Foo") — a different method from Pro's Foo.
+type C6Pub struct{ Pro *c6Leaf }
+
+func (p C6Pub) Foo(ctx context.Context) error {
+	if c6Current != nil {
+		c6Current.hit("C6Pub.Foo")
+	}
+	return nil
+}
 
 type c6Value struct{ svc *c6Local }
 
@@ -70,6 +84,7 @@ type c6Local struct {
 	I      interface{} // nil empty interface
 	I2     interface{} // holds a *c6Leaf
 	hidden *c6Leaf
+	C6Pub   // exported struct embedded by value: Pro and Foo are promoted
 	c6inner // unexported embedded struct: Deep is promoted (exposed as "Deep"), the name "c6inner" itself is not an exported field
 }
 
@@ -80,11 +95,12 @@ type c6inner struct {
 func newC6Local() *c6Local {
 	local := &c6Local{G2: nil, Leaf: nil}
 	local.G2 = &greeterImpl{local}
-	local.Leaf = &c6Leaf{local}
+	local.Leaf = &c6Leaf{local, "Leaf"}
 	local.V = c6Value{local}
-	local.I2 = &c6Leaf{local}
-	local.hidden = &c6Leaf{local}
-	local.Deep = &c6Leaf{local}
+	local.I2 = &c6Leaf{local, "I2"}
+	local.hidden = &c6Leaf{local, "hidden"}
+	local.Deep = &c6Leaf{local, "Deep"}
+	local.Pro = &c6Leaf{local, "Pro"}
 	local.F = func(ctx context.Context) error { local.hit("F"); return nil }
 	c6Current = local
 	return local
@@ -122,6 +138,8 @@ var c6Names = []string{
 	"c6inner.Deep.Foo", "c6inner", "c6inner.Deep", "Deep.Foo", "Deep", "Deep.foo",
 	"Ping\x00", "Píng", "Leaf․Foo", "Leaf/Foo", "Leaf..Foo",
 	"String", "Close", "Leaf.String",
+	// a field and a method promoted through an exported struct embedded by value
+	"Pro.Foo", "Pro", "C6Pub.Pro.Foo", "C6Pub.Foo", "Foo", "C6Pub", "Pro.foo", "C6Pub.Pro", "pro.Foo",
 	// names a refactor of the closure manager could export next to CallClosure (the resolver falls back to MethodByName on it)
 	"RegisterClosure", "registerClosure", "FreeClosure", "CreateClosure", "Closures", "Register", "Free",
 }
@@ -133,7 +151,7 @@ var c6Args = []string{
 
 // fully valid requests: name -> (args, label the method logs)
 var c6Valid = [][3]string{
-	{"Ping", `[1]`, "Ping"}, {"Two", `["x",[1,2]]`, "Two"}, {"Leaf.Foo", `[]`, "Foo"}, {"G2.Hello", `[]`, "G2.Hello"}, {"V.ValM", `[]`, "V.ValM"}, {"Deep.Foo", `[]`, "Foo"},
+	{"Ping", `[1]`, "Ping"}, {"Two", `["x",[1,2]]`, "Two"}, {"Leaf.Foo", `[]`, "Leaf.Foo"}, {"G2.Hello", `[]`, "G2.Hello"}, {"V.ValM", `[]`, "V.ValM"}, {"Deep.Foo", `[]`, "Deep.Foo"}, {"Pro.Foo", `[]`, "Pro.Foo"}, {"Foo", `[]`, "C6Pub.Foo"},
 	{"Ping", `[41]`, "Ping"}, {"Two", `["",null]`, "Two"},
 }
 
@@ -405,7 +423,8 @@ func subC06(args []string) {
 				Function string            `json:"function"`
 				Args     []json.RawMessage `json:"args"`
 			}
-			allowed := map[string]string{"Ping": "Ping/1", "Two": "Two/2", "TakesFunc": "TakesFunc/1", "G2.Hello": "G2.Hello/0", "Leaf.Foo": "Foo/0", "V.ValM": "V.ValM/0", "Deep.Foo": "Foo/0", "EmbM": "EmbM/0", "C6Embedded.EmbM": "EmbM/0"}
+			allowed := map[string]string{"Ping": "Ping/1", "Two": "Two/2", "TakesFunc": "TakesFunc/1", "G2.Hello": "G2.Hello/0", "Leaf.Foo": "Leaf.Foo/0", "V.ValM": "V.ValM/0", "Deep.Foo": "Deep.Foo/0", "EmbM": "EmbM/0", "C6Embedded.EmbM": "EmbM/0",
+				"Pro.Foo": "Pro.Foo/0", "C6Pub.Pro.Foo": "Pro.Foo/0", "Foo": "C6Pub.Foo/0", "C6Pub.Foo": "C6Pub.Foo/0"}
 			if json.Unmarshal(frame, &req) != nil || kind != "req" {
 				say("BAD application code ran (%s) for a frame that is not a well-formed request", strings.Join(local.hits[before:], ","))
 			} else if want, ok := allowed[req.Function]; !ok || len(local.hits)-before != 1 || want != fmt.Sprintf("%s/%d", local.hits[before], len(req.Args)) {
